@@ -1,4 +1,5 @@
 import Cicada.Spec.C15
+import Cicada.Model.ScriptSess
 /-!
 # C15 — script arguments, functions, `source` and exit statuses
 
@@ -147,5 +148,62 @@ theorem C15_sq_untouched (args : List Str) (text : Str) (pre post : List Tok) :
 /-! ### non-vacuity / concrete instances -/
 example : expandArgsTok ["s.sh".toList, "a b".toList, "c".toList] "x$1-${2}$3/$@.".toList = "xa b-c/a b c.".toList := by decide
 example : parseUsize "12".toList = some 12 := by decide
+
+end Cicada.C15
+
+/-! ### functions, `source`, `exit`, `set -e` (model: `Model/ScriptSess.lean`) -/
+namespace Cicada.C15
+open Cicada.ScriptSess
+
+/-- **after `set -e` the first failing command ends the run with its status**: whatever follows is not executed -/
+theorem C15_sete_first_failure (cfg : Cfg) (files : List (Str × List SStmt)) (f : Nat) (k c : Nat) (rest : List SStmt) (st : St) (last : Nat)
+    (hs : st.sete = true) (he : st.exited = none) (hc : c ≠ 0) :
+    runStmts cfg files (f + 1) (.stage k c :: rest) st last = ({ st with trace := st.trace ++ [(k, c)] }, c) := by
+  simp [runStmts, he, hs, hc]
+
+/-- a succeeding command lets the run go on -/
+theorem C15_success_continues (cfg : Cfg) (files : List (Str × List SStmt)) (f : Nat) (k : Nat) (rest : List SStmt) (st : St) (last : Nat)
+    (he : st.exited = none) :
+    runStmts cfg files (f + 1) (.stage k 0 :: rest) st last = runStmts cfg files f rest { st with trace := st.trace ++ [(k, 0)] } 0 := by
+  simp [runStmts, he]
+
+/-- **`exit N` ends the shell immediately**: nothing after it runs, in whatever nesting it was reached -/
+theorem C15_exit_immediate (cfg : Cfg) (files : List (Str × List SStmt)) (f : Nat) (n : Nat) (rest : List SStmt) (st : St) (last : Nat)
+    (he : st.exited = none) :
+    runStmts cfg files (f + 1) (.exit n :: rest) st last = ({ st with exited := some n }, n) := by
+  simp [runStmts, he]
+
+/-- once the shell has exited no statement is run any more -/
+theorem C15_exited_runs_nothing (cfg : Cfg) (files : List (Str × List SStmt)) (f : Nat) (stmts : List SStmt) (st : St) (last : Nat) (n : Nat)
+    (he : st.exited = some n) : runStmts cfg files f stmts st last = (st, last) := by
+  cases f with
+  | zero => simp [runStmts]
+  | succ f => cases stmts <;> simp [runStmts, he]
+
+/-- the status of a run without `set -e` and without `exit` is the status of its last command -/
+theorem C15_status_is_last (cfg : Cfg) (files : List (Str × List SStmt)) (f : Nat) (k c : Nat) (st : St) (last : Nat)
+    (hs : st.sete = false) (he : st.exited = none) :
+    (runStmts cfg files (f + 2) [.stage k c] st last).2 = c := by
+  simp [runStmts, he, hs]
+
+/-- a function defined anywhere in a file is callable from the first line of that file: definitions are registered when
+the file is loaded -/
+theorem C15_functions_hoisted (cfg : Cfg) (k c : Nat) :
+    (runMain cfg [("s".toList, [.call "f".toList, .defn "f".toList [.stage k c]])] "s".toList).2 = [(k, c)] := by
+  simp [runMain, runFile, runStmts, setFunc, isDefn, List.find?]
+
+/-- `set -e` issued before a `source` is still in effect after it (since the `fix:` to the source builtin):
+`set -e; source a; stage 2 (fails); stage 3` stops at 2 -/
+theorem C15_sete_survives_source :
+    runMain {} [("s".toList, [.sete, .source "a".toList, .stage 2 3, .stage 3 0]), ("a".toList, [.stage 1 0])] "s".toList
+      = (3, [(1, 0), (2, 3)]) := by decide
+
+/-- KF-C15-sete-inside-sourced-file: a `set -e` issued INSIDE a sourced file is switched off again when that file ends
+(model = implementation), the reference semantics keeps it -/
+theorem C15_finding_sete_inside_sourced_file :
+    runMain {} [("s".toList, [.source "a".toList, .stage 2 3, .stage 3 0]), ("a".toList, [.sete, .stage 1 0])] "s".toList
+      = (0, [(1, 0), (2, 3), (3, 0)]) ∧
+    runMain { clearAfterSource := false } [("s".toList, [.source "a".toList, .stage 2 3, .stage 3 0]), ("a".toList, [.sete, .stage 1 0])] "s".toList
+      = (3, [(1, 0), (2, 3)]) := by decide
 
 end Cicada.C15
